@@ -96,5 +96,29 @@ Proof.
     + apply Rltb_false in E. pose proof (Sum_nonneg pm l Hl). assert (Z0 : Sum pm l = 0) by lra.
       unfold good. rewrite Z0. rewrite !(Sum_zero pm _ l Hl Z0). repeat split; lra.
 Qed.
+
+(* the centre of mass is the mass-weighted mean of the contents whenever the cell has positive mass *)
+Lemma gravity_com_mean : forall t, (forall p, In p (leaves t) -> 0 <= pm p) -> 0 < Sum pm (leaves t) ->
+  let '(m, mx, my, mz) := gdata RNum part t in
+  m = Sum pm (leaves t) /\
+  mx = Sum (fun p => pm p * px p) (leaves t) / Sum pm (leaves t) /\
+  my = Sum (fun p => pm p * py p) (leaves t) / Sum pm (leaves t) /\
+  mz = Sum (fun p => pm p * pz p) (leaves t) / Sum pm (leaves t).
+Proof.
+  intros t H Hp. pose proof (gravity_data_sums t H) as G. destruct (gdata RNum part t) as [[[m mx] my] mz].
+  unfold good in G. destruct G as (A & B & C & D). rewrite <- A in *. repeat split; try reflexivity.
+  - rewrite <- B. field. lra.
+  - rewrite <- C. field. lra.
+  - rewrite <- D. field. lra.
+Qed.
+
+(* reb_simulation_update_tree_gravity_data: the pass over the array of root cells; every cell of every root *)
+Lemma gravity_forest : forall (f : list (option cell)),
+  (forall t p, In (Some t) f -> In p (leaves t) -> 0 <= pm p) ->
+  Forall (fun o => match o with None => True | Some t => good (leaves t) (gdata RNum part t) end) f.
+Proof.
+  intros f H. apply Forall_forall. intros o Ho. destruct o as [t|]; [|exact I].
+  apply gravity_data_sums. intros p Hp. eapply H; eassumption.
+Qed.
 End G.
 Close Scope R_scope.
